@@ -182,6 +182,7 @@ class no_cache(object):
             return CacheInfo(stats[HIT], stats[MISS], stats[LOAD], maxsize, len(cache))
 
         # interface
+        update_wrapper(wrapper, user_function) # first: the interface wins
         wrapper.__wrapped__ = user_function
         #XXX: better is handle to key_function=keygen(ignore)(user_function) ?
         wrapper.info = info
@@ -196,7 +197,7 @@ class no_cache(object):
         wrapper.__mask__ = __get_mask
         wrapper.__map__ = __get_keymap
        #wrapper._queue = None  #XXX
-        return update_wrapper(wrapper, user_function)
+        return wrapper
 
     def __get__(self, obj, objtype):
         """support instance methods"""
@@ -362,6 +363,7 @@ class inf_cache(object):
             return CacheInfo(stats[HIT], stats[MISS], stats[LOAD], maxsize, len(cache))
 
         # interface
+        update_wrapper(wrapper, user_function) # first: the interface wins
         wrapper.__wrapped__ = user_function
         #XXX: better is handle to key_function=keygen(ignore)(user_function) ?
         wrapper.info = info
@@ -376,7 +378,7 @@ class inf_cache(object):
         wrapper.__mask__ = __get_mask
         wrapper.__map__ = __get_keymap
        #wrapper._queue = None  #XXX
-        return update_wrapper(wrapper, user_function)
+        return wrapper
 
     def __get__(self, obj, objtype):
         """support instance methods"""
@@ -580,6 +582,7 @@ class lfu_cache(object):
             return CacheInfo(stats[HIT], stats[MISS], stats[LOAD], maxsize, len(cache))
 
         # interface
+        update_wrapper(wrapper, user_function) # first: the interface wins
         wrapper.__wrapped__ = user_function
         #XXX: better is handle to key_function=keygen(ignore)(user_function) ?
         wrapper.info = info
@@ -594,7 +597,7 @@ class lfu_cache(object):
         wrapper.__mask__ = __get_mask
         wrapper.__map__ = __get_keymap
        #wrapper._queue = use_count #XXX
-        return update_wrapper(wrapper, user_function)
+        return wrapper
 
     def __get__(self, obj, objtype):
         """support instance methods"""
@@ -827,6 +830,7 @@ class lru_cache(object):
             return CacheInfo(stats[HIT], stats[MISS], stats[LOAD], maxsize, len(cache))
 
         # interface
+        update_wrapper(wrapper, user_function) # first: the interface wins
         wrapper.__wrapped__ = user_function
         #XXX: better is handle to key_function=keygen(ignore)(user_function) ?
         wrapper.info = info
@@ -841,7 +845,7 @@ class lru_cache(object):
         wrapper.__mask__ = __get_mask
         wrapper.__map__ = __get_keymap
        #wrapper._queue = queue #XXX
-        return update_wrapper(wrapper, user_function)
+        return wrapper
 
     def __get__(self, obj, objtype):
         """support instance methods"""
@@ -1049,6 +1053,7 @@ class mru_cache(object):
             return CacheInfo(stats[HIT], stats[MISS], stats[LOAD], maxsize, len(cache))
 
         # interface
+        update_wrapper(wrapper, user_function) # first: the interface wins
         wrapper.__wrapped__ = user_function
         #XXX: better is handle to key_function=keygen(ignore)(user_function) ?
         wrapper.info = info
@@ -1063,7 +1068,7 @@ class mru_cache(object):
         wrapper.__mask__ = __get_mask
         wrapper.__map__ = __get_keymap
        #wrapper._queue = queue #XXX
-        return update_wrapper(wrapper, user_function)
+        return wrapper
 
     def __get__(self, obj, objtype):
         """support instance methods"""
@@ -1259,6 +1264,7 @@ class rr_cache(object):
             return CacheInfo(stats[HIT], stats[MISS], stats[LOAD], maxsize, len(cache))
 
         # interface
+        update_wrapper(wrapper, user_function) # first: the interface wins
         wrapper.__wrapped__ = user_function
         #XXX: better is handle to key_function=keygen(ignore)(user_function) ?
         wrapper.info = info
@@ -1273,7 +1279,7 @@ class rr_cache(object):
         wrapper.__mask__ = __get_mask
         wrapper.__map__ = __get_keymap
        #wrapper._queue = None  #XXX
-        return update_wrapper(wrapper, user_function)
+        return wrapper
 
     def __get__(self, obj, objtype):
         """support instance methods"""
